@@ -316,6 +316,15 @@ def discharge(ctx, I, s, handles, need):
         g = CG.get(fx)
         cs = sorted(fx.by_path[p].name for p in g.callers(b.path))
         allowed = {'asefile::cel::Cel::is_empty', 'asefile::cel::Cel::user_data', 'asefile::cel::Cel::raw_cel', AF + 'layer_image', AF + 'write_cel'}
+        if AF + 'frame_image' in cs:
+            # frame_image looking cels up itself: the frame is its own parameter (a Frame handle's index, as for frame_cels)
+            fib = fx.body(AF + 'frame_image')
+            good = handles['frame'] and fib is not None
+            for c_ in (q.calls(fib, fn) if fib is not None else []):
+                cid = q.arg_terms(c_)[1]
+                good = good and cid[0] == 'agg' and is_param(strip_casts(dict(cid[3]).get('frame', ('unknown',))), 2)
+            if good:
+                allowed = allowed | {AF + 'frame_image'}
         return U('U2', ok_ and set(cs) <= allowed and handles['cel'], 'data[cel_id.frame]: callers %s pass a Cel handle id or a validated link target: %s'
                  % ([c.split('::')[-1] for c in cs], why))
     if fn == 'asefile::cel::CelsData::frame_cels' and kind == 'ext:index':
